@@ -23,6 +23,7 @@ from unittest import mock
 
 from . import common
 from . import c20_pos
+from . import c20_tie
 from .common import lst, blit, natlit, qlit, zlit
 
 HEADER = """From Coq Require Import String.
@@ -33,6 +34,7 @@ From LV Require Import Goose.Stopper Goose.StopperPos Goose.CorrC20.
 
 TOLS = [Fraction(0), Fraction(1, 2), Fraction(1)]
 ALPHA = [0, 1, 2, 3]
+ALPHA_NEG = [-3, -2, -1, 0]      # stratum with negative losses: the relative test divides by |best|, not by best
 
 
 # ---------------------------------------------------------------------------------------------
@@ -60,6 +62,23 @@ def part_a(ctx):
         wb = np.asarray(jax.jit(jax.vmap(lambda i, h: st.which_best_in_recent_history(i, h)))(I, H)).astype(int)
         nev += 3 * len(se)
         out.append({"cfg": (mi, p, at, rt), "L": L, "se": se, "sn": sn, "wb": wb})
+    for o in out:
+        o["hs"] = hs
+    # forced stratum: all histories of length 5 over NEGATIVE losses, relative tolerance > 0, absolute tolerance 0
+    # (diff / |best| <= rtol differs from diff / best <= rtol exactly when best < 0)
+    Ln = 5
+    hs_n = np.array(list(itertools.product(ALPHA_NEG, repeat=Ln)), dtype=np.float32)
+    Hn = jnp.asarray(np.repeat(hs_n, Ln, axis=0))
+    In = jnp.asarray(np.tile(np.arange(Ln, dtype=np.int32), hs_n.shape[0]))
+    cfgs_n = [(Ln, 2, Fraction(0), Fraction(1, 2)), (Ln + 2, 3, Fraction(0), Fraction(1))]
+    for (mi, p, at, rt) in cfgs_n:
+        st = Stopper(max_iter=mi, patience=p, atol=float(at), rtol=float(rt))
+        se = np.asarray(jax.jit(jax.vmap(lambda i, h: st.stop_early(i, h)))(In, Hn)).astype(bool)
+        sn = np.asarray(jax.jit(jax.vmap(lambda i, h: st.stop_now(i, h)))(In, Hn)).astype(bool)
+        wb = np.asarray(jax.jit(jax.vmap(lambda i, h: st.which_best_in_recent_history(i, h)))(In, Hn)).astype(int)
+        nev += 3 * len(se)
+        out.append({"cfg": (mi, p, at, rt), "L": Ln, "se": se, "sn": sn, "wb": wb, "hs": hs_n, "neg": True})
+    ctx.hist("A.configs_negative_losses", len(cfgs_n))
     ctx.count(nev, sum(int(o["se"].sum()) + int((~o["se"]).sum() > 0) for o in out))
     ctx.hist("A.configs", len(cfgs))
     ctx.hist("A.method_evaluations", nev)
@@ -86,6 +105,26 @@ def emit_a(ctx, a):
     for k, o in enumerate(a["out"]):
         mi, p, at, rt = o["cfg"]
         assert all(-8 <= v <= 7 for v in o["wb"])
+        if o.get("neg"):
+            txt = HEADER + f"""
+Definition st := mkStopper {natlit(mi)} {natlit(p)} {qlit(at)} {qlit(rt)}.
+Definition alphabet_neg : list Q := {lst(qlit(x) for x in ALPHA_NEG)}.
+Fixpoint hists_neg (n : nat) : list (list Q) :=
+  match n with
+  | O => [[]]
+  | S n' => flat_map (fun a => map (cons a) (hists_neg n')) alphabet_neg
+  end.
+Definition enum_neg {{A}} (f : nat -> list Q -> A) (L : nat) : list A :=
+  flat_map (fun h => map (fun i => f i h) (seq 0 L)) (hists_neg L).
+Lemma shard_ok_stop_early : nlist_eqb (pack_bits (enum_neg (stop_early st) {natlit(o['L'])})) ({pack_bits(o['se'])})%N = true.
+Proof. vm_compute. reflexivity. Qed.
+Lemma shard_ok_stop_now : nlist_eqb (pack_bits (enum_neg (stop_now st) {natlit(o['L'])})) ({pack_bits(o['sn'])})%N = true.
+Proof. vm_compute. reflexivity. Qed.
+Lemma shard_ok_which_best : nlist_eqb (pack_nibbles (enum_neg (which_best st) {natlit(o['L'])})) ({pack_nibbles(o['wb'])})%N = true.
+Proof. vm_compute. reflexivity. Qed.
+"""
+            paths.append(ctx.new_shard(txt, f"cases_A{k:02d}_neg"))
+            continue
         txt = HEADER + f"""
 Definition st := mkStopper {natlit(mi)} {natlit(p)} {qlit(at)} {qlit(rt)}.
 Lemma shard_ok_stop_early : nlist_eqb (pack_bits (enum_stop_early st {natlit(o['L'])})) ({pack_bits(o['se'])})%N = true.
@@ -112,11 +151,11 @@ def py_rule(mi, p, at, rt, i, h):
 
 
 def oracle_a(a):
-    L = a["L"]
     for o in a["out"]:
+        L = o["L"]
         mi, p, at, rt = o["cfg"]
         k = 0
-        for h in a["hs"]:
+        for h in o["hs"]:
             hh = [Fraction(int(x)) for x in h]
             for i in range(L):
                 want = py_rule(mi, p, at, rt, i, hh)
@@ -454,7 +493,30 @@ def run(ctx) -> int:
                                "5 position history, 6 loss history): " + c20_pos.diagnose_d(ctx, d, HEADER))
         if disagree:
             ctx.broken.append("correspondence lemma shard_ok in " + ", ".join(sorted(disagree)))
-    ctx.cov["rule"] = ("A: every loss history of the stated length over {0,1,2,3} x every i x 38 stopper configurations "
+        # second tie between model and code: the source of the Stopper methods and of _generate_batch_indices is
+        # translated to Gallina now and proved equal to the model (c20_tie.py).  A broken source tie alone is no
+        # alarm (a refactoring may leave the translated subset); it is named beside a behavioural disagreement.
+        try:
+            tie = c20_tie.run(ctx, common.REPO)
+        except Exception as ex:      # optional evidence: never turns into an alarm by itself
+            tie = {"translated": [], "lemmas_ok": False, "lemmas": [], "not_tied": {"all": f"{type(ex).__name__}: {ex}"},
+                   "detail": "SOURCE TIE BROKEN: the tie step aborted; the verdict rests on the behavioural correspondence"}
+        ctx.cov["source_tie"] = tie
+        for sec in sorted(tie["not_tied"]):
+            ctx.hist("T.source_tie_broken." + sec)
+        ctx.hist("T.source_tie_lemmas", len(tie["lemmas"]))
+        if not tie["lemmas_ok"] and (disagree or [f for f in fails if not f.get("klass")]):
+            ctx.broken.append("source tie (py2gallina_c20): " + "; ".join(f"{k}: {v}" for k, v in sorted(tie["not_tied"].items()))[:600])
+    else:
+        ctx.cov["source_tie"] = {"translated": [], "lemmas_ok": False, "detail": "not attempted: the Coq build failed"}
+    ctx.extra_tb = getattr(ctx, "extra_tb", []) + [
+        "source tie (advisory): tools/py2gallina_c20.py (Python ast -> Gallina for Stopper.stop_early / stop_now / "
+        "which_best_in_recent_history and _generate_batch_indices; fails closed outside its subset), its library-call table "
+        "(lax.dynamic_slice -> the model's clamped dyn_slice, jnp.min / argmin / w[0] -> qmin_list / argmin / hd, float scalars as "
+        "exact rationals + inf / NaN, jax.random.permutation as an oracle argument, jnp.array_split by numpy's rule), Python / jax "
+        "ints as unbounded Z; result of this run in coverage.source_tie"]
+    ctx.cov["rule"] = ("A: every loss history of the stated length over {0,1,2,3} x every i x 38 stopper configurations, and every "
+                       "history of length 5 over the negative losses {-3,-2,-1,0} x every i x 2 configurations with rtol > 0 "
                        "(exhaustive; distinct = histories on which stop_early fires, all distinct); B: optim_flat runs with "
                        "scripted positions (distinct scripts); C: mini-batch runs with captured keys; D: optim_flat runs with 2-3 named "
                        "parameters handed over in non-alphabetical order (distinct name lists x scripts); E: batch index calls "
